@@ -14,7 +14,8 @@ var log = logging.Logger("data-transfer")
 // ChannelEvents describe the events taht can
 var ChannelEvents = fsm.Events{
 	// Open a channel
-	fsm.Event(datatransfer.Open).FromAny().To(datatransfer.Requested).Action(func(chst *internal.ChannelState) error {
+	fsm.Event(datatransfer.Open).FromAny().To(datatransfer.Requested).
+		FromMany(datatransfer.Failing, datatransfer.Cancelling, datatransfer.Completing).ToJustRecord().Action(func(chst *internal.ChannelState) error {
 		chst.AddLog("")
 		return nil
 	}),
@@ -212,7 +213,7 @@ var ChannelEvents = fsm.Events{
 	// The transfer has finished on the local node - all data was sent / received
 	fsm.Event(datatransfer.FinishTransfer).
 		FromAny().To(datatransfer.TransferFinished).
-		FromMany(datatransfer.Failing, datatransfer.Cancelling).ToJustRecord().
+		FromMany(datatransfer.Failing, datatransfer.Cancelling, datatransfer.Completing).ToJustRecord().
 		From(datatransfer.ResponderCompleted).To(datatransfer.Completing).
 		From(datatransfer.ResponderFinalizing).To(datatransfer.ResponderFinalizingTransferFinished).
 		// If we are in the AwaitingAcceptance state, it means the other party simply never responded to our
@@ -226,7 +227,7 @@ var ChannelEvents = fsm.Events{
 
 	fsm.Event(datatransfer.ResponderBeginsFinalization).
 		FromAny().To(datatransfer.ResponderFinalizing).
-		FromMany(datatransfer.Failing, datatransfer.Cancelling).ToJustRecord().
+		FromMany(datatransfer.Failing, datatransfer.Cancelling, datatransfer.Completing).ToJustRecord().
 		From(datatransfer.TransferFinished).To(datatransfer.ResponderFinalizingTransferFinished).
 		FromMany(datatransfer.ResponderFinalizing, datatransfer.ResponderFinalizingTransferFinished).ToJustRecord().Action(func(chst *internal.ChannelState) error {
 		chst.AddLog("")
@@ -236,14 +237,15 @@ var ChannelEvents = fsm.Events{
 	// The remote peer sent a Complete message, meaning it has sent / received all data
 	fsm.Event(datatransfer.ResponderCompletes).
 		FromAny().To(datatransfer.ResponderCompleted).
-		FromMany(datatransfer.Failing, datatransfer.Cancelling).ToJustRecord().
+		FromMany(datatransfer.Failing, datatransfer.Cancelling, datatransfer.Completing).ToJustRecord().
 		From(datatransfer.TransferFinished).To(datatransfer.Completing).
 		From(datatransfer.ResponderFinalizingTransferFinished).To(datatransfer.Completing).Action(func(chst *internal.ChannelState) error {
 		chst.AddLog("")
 		return nil
 	}),
 
-	fsm.Event(datatransfer.BeginFinalizing).FromAny().To(datatransfer.Finalizing).Action(func(chst *internal.ChannelState) error {
+	fsm.Event(datatransfer.BeginFinalizing).FromAny().To(datatransfer.Finalizing).
+		FromMany(datatransfer.Failing, datatransfer.Cancelling, datatransfer.Completing).ToJustRecord().Action(func(chst *internal.ChannelState) error {
 		chst.AddLog("")
 		return nil
 	}),
